@@ -80,6 +80,8 @@ fn switches(s: &[Step]) -> usize {
 
 /// scenario-specific counters that end up in the result file ("extra")
 pub static EXTRA: std::sync::Mutex<std::collections::BTreeMap<String, u64>> = std::sync::Mutex::new(std::collections::BTreeMap::new());
+/// a scenario-level history (call / return records) to be written to the trace file instead of the point trace
+pub static HISTORY: std::sync::Mutex<Vec<serde_json::Value>> = std::sync::Mutex::new(Vec::new());
 pub fn bump(key: &str) {
     *EXTRA.lock().unwrap().entry(key.to_string()).or_insert(0) += 1;
 }
@@ -194,10 +196,20 @@ pub fn main(args: &[String]) -> i32 {
             std::process::exit(if st.violations.is_empty() { 2 } else { 1 });
         }
         finish(ctl, &out, handles, &mut *unstick);
+        if traces.is_none() {
+            HISTORY.lock().unwrap().clear();
+        }
         if let Some(w) = traces.as_mut() {
-            let _ = writeln!(w, "{}", json!({"ev": "reset", "run": label}));
-            for e in trace_json(&out.names, &out.trace) {
-                let _ = writeln!(w, "{e}");
+            let mut h = HISTORY.lock().unwrap();
+            if !h.is_empty() {
+                for e in h.drain(..) {
+                    let _ = writeln!(w, "{e}");
+                }
+            } else {
+                let _ = writeln!(w, "{}", json!({"ev": "reset", "run": label}));
+                for e in trace_json(&out.names, &out.trace) {
+                    let _ = writeln!(w, "{e}");
+                }
             }
         }
         out
